@@ -338,7 +338,8 @@ Lemma postn_variant_dims : forall mask, bit mask 7 = true ->
 Proof.
   intros mask B7. unfold variant_dims_dec, enc_dims. rewrite B7. cbn [andb]. destruct (bit mask 6); [|apply postn_ret; apply elen_nil].
   eapply postn_bind; [apply (postn_read_i 4)|]. intros dl n0 ->.
-  destruct (dl <? 0) eqn:E0; [apply postn_fail|]. apply Z.ltb_ge in E0.
+  destruct ((dl <? 0) || (max_variant_array_dimensions <? dl)) eqn:E0; [apply postn_fail|].
+  apply orb_false_iff in E0. destruct E0 as [E0 _]. apply Z.ltb_ge in E0.
   eapply postn_bind; [apply postn_remaining|]. intros r n1 ->.
   destruct (r / 4 <? dl); [apply postn_fail|]. apply postn_tick_bind.
   eapply postn_bind.
@@ -391,6 +392,7 @@ Section LenVariant.
     eapply postn_bind; [apply (postn_read_i 4)|]. intros alen n1 ->.
     destruct (max_variant_array_length <? alen) eqn:Emax; [apply postn_fail|].
     destruct (alen <? -1) eqn:Emin; [apply postn_fail|].
+    eapply postn_bind; [apply postn_remaining|]. intros rem nrem ->. destruct (rem <? alen); [apply postn_fail|].
     set (QL := fun (l : list val) (n : nat) =>
                  elen (enc_list (encode reg (variant_ty tid)) l) n /\ Forall (Pleaf reg tid) l /\
                  Forall (fun x => noempty x = true -> rwf reg (variant_ty tid) x = true) l).
@@ -539,7 +541,7 @@ Section LenExtObj.
         rewrite rwf0_extobj, E0, Ebt in Hw0. rewrite rwf_extobj, E0, Ebt.
         apply andb_true in Hw0. destruct Hw0 as [Hhead Hw0]. rewrite Hhead, Hr'. cbn [andb].
         apply andb_true in Hw0. destruct Hw0 as [Hw0 _].
-        destruct (roundtrip_all reg bt v Hr' 0%nat) as [bb [Ebb [Lbb _]]]. rewrite Ebb in *. cbn [elen] in He.
+        destruct (roundtrip_all reg bt v (vdepth v) Hr' (le_n _) 0%nat) as [bb [Ebb [Lbb _]]]. rewrite Ebb in *. cbn [elen] in He.
         specialize (Hminbt v Hw0 Hne1). unfold blen, null32 in *.
         apply andb_true_intro. split; [apply Z.ltb_lt|apply Z.ltb_lt]; lia. }
     unfold extobj_body_ty in Hsome. destruct (mask =? 2) eqn:E2.
@@ -594,37 +596,39 @@ Section LenMain.
   Qed.
 
   (* leaf descriptors: well-formedness from the first pass, only the length is new *)
-  Ltac leaf_case f Ht :=
-    apply (postn_use _ _ _ _ (decode_wf reg Hreg (S f) _ Ht));
+  Ltac leaf_case H1 Ht :=
+    apply (postn_use _ _ _ _ (H1 _ Ht));
     eapply postn_weaken;
     [|intros x n He [Hw0 _]; split; [exact He|intros _; apply leaf_rwf0_rwf; [reflexivity|exact Hw0]]].
 
-  Theorem decode_len : forall fuel t, desc_ok t = true -> postn (K reg t) (decode reg fuel t).
+  Lemma level_len : forall rec allow,
+    (forall t, desc_ok t = true -> post (Pv reg t) (dec_level reg rec allow t)) ->
+    (forall c, postn (K reg (TCustom c)) (level_custom reg rec allow c)) ->
+    forall t, desc_ok t = true -> postn (K reg t) (dec_level reg rec allow t).
   Proof.
-    induction fuel as [|f IHf]; intros t Ht; [intros bs x rest al _ E; discriminate|].
-    revert Ht. induction t using ty_ind'; intros Ht.
-    - leaf_case f Ht. cbn [decode]. eapply postn_bind; [apply (postn_read_u 1)|]. intros b n ->. apply postn_ret.
+    intros rec allow H1 Hcust t. induction t using ty_ind'; intros Ht.
+    - leaf_case H1 Ht. cbn [dec_level]. eapply postn_bind; [apply (postn_read_u 1)|]. intros b n ->. apply postn_ret.
       cbn [encode]. elen_calc.
-    - leaf_case f Ht. cbn [decode]. destruct s.
+    - leaf_case H1 Ht. cbn [dec_level]. destruct s.
       + eapply postn_bind; [apply (postn_read_i w)|]. intros z n ->. apply postn_ret. cbn [encode]. apply elen_le. lia.
       + eapply postn_bind; [apply (postn_read_u w)|]. intros z n ->. apply postn_ret. cbn [encode]. apply elen_le. lia.
-    - leaf_case f Ht. cbn [decode]. eapply postn_bind; [apply (postn_read_u w)|]. intros z n ->. apply postn_ret.
+    - leaf_case H1 Ht. cbn [dec_level]. eapply postn_bind; [apply (postn_read_u w)|]. intros z n ->. apply postn_ret.
       cbn [encode]. apply elen_le. lia.
-    - leaf_case f Ht. cbn [decode]. eapply postn_bind; [apply postn_read_string|]. intros s n He. apply postn_ret.
+    - leaf_case H1 Ht. cbn [dec_level]. eapply postn_bind; [apply postn_read_string|]. intros s n He. apply postn_ret.
       cbn [encode]. eapply elen_mono; [exact He|lia].
-    - leaf_case f Ht. cbn [decode]. eapply postn_bind; [apply postn_read_time|]. intros s n He. apply postn_ret.
+    - leaf_case H1 Ht. cbn [dec_level]. eapply postn_bind; [apply postn_read_time|]. intros s n He. apply postn_ret.
       cbn [encode]. eapply elen_mono; [exact He|lia].
-    - leaf_case f Ht. cbn [decode]. unfold dec_bytes. eapply postn_bind; [apply (postn_read_u 4)|]. intros k n0 ->.
+    - leaf_case H1 Ht. cbn [dec_level]. unfold dec_bytes. eapply postn_bind; [apply (postn_read_u 4)|]. intros k n0 ->.
       destruct (k =? null32); [apply postn_ret; apply (elen_le 4 null32); lia|].
       destruct (max_int32 <? k); [apply postn_fail|].
       eapply postn_bind; [apply postn_remaining|]. intros r n1 ->. destruct (r <? k); [apply postn_fail|].
       eapply postn_bind; [apply postn_read_n|]. intros d n2 [_ ->]. apply postn_ret.
       cbn [encode]. unfold enc_bytestring. destruct (max_int32 <? blen d); [exact I|]. elen_calc.
     - (* slice *)
-      apply (postn_use _ _ _ _ (decode_wf reg Hreg (S f) _ Ht)).
+      apply (postn_use _ _ _ _ (H1 _ Ht)).
       cbn [desc_ok] in Ht. apply andb_true in Ht. destruct Ht as [Hmin' Ht].
-      change (decode reg (S f) (TSlice t)) with
-        (dec_slice (match t with TPtr x => 8 + tsize x | TCustom _ => 8 | _ => tsize t end)%N (decode reg (S f) t)).
+      change (dec_level reg rec allow (TSlice t)) with
+        (dec_slice (match t with TPtr x => 8 + tsize x | TCustom _ => 8 | _ => tsize t end)%N (dec_level reg rec allow t)).
       unfold dec_slice. eapply postn_bind; [apply (postn_read_u 4)|]. intros k n0 ->.
       destruct (k =? null32).
       { apply postn_ret. intros _. split; [apply (elen_le 4 null32); lia|intros _; reflexivity]. }
@@ -644,7 +648,7 @@ Section LenMain.
       + rewrite noempty_slice. intros Hne. apply upgrade_slice; [exact Hw0|].
         rewrite forallb_forall in Hne. rewrite Forall_forall in *. intros x Hx. apply (HR x Hx). apply Hne. exact Hx.
     - (* pointer *)
-      cbn [desc_ok] in Ht. change (decode reg (S f) (TPtr t)) with (dec_ptr t (decode reg (S f) t)).
+      cbn [desc_ok] in Ht. change (dec_level reg rec allow (TPtr t)) with (dec_ptr t (dec_level reg rec allow t)).
       unfold dec_ptr. destruct t; try apply postn_panic;
         (apply postn_tick_bind; eapply postn_bind; [apply IHt; exact Ht|]; intros v n [He Hr]; apply postn_ret; split;
          [cbn [encode]; eapply elen_mono; [exact He|lia]
@@ -652,30 +656,46 @@ Section LenMain.
           rewrite (Hr Hne); reflexivity]).
     - (* struct *)
       cbn [desc_ok] in Ht. rewrite forallb_forall in Ht.
-      change (decode reg (S f) (TStruct fs)) with
-        (bind (dec_fields (map (decode reg (S f)) fs)) (fun vs => ret (VStruct vs))).
+      change (dec_level reg rec allow (TStruct fs)) with
+        (bind (dec_fields (map (dec_level reg rec allow) fs)) (fun vs => ret (VStruct vs))).
       eapply postn_bind.
       + apply postn_fields. rewrite Forall_forall in *. intros t Hin. apply H; [exact Hin|apply Ht; exact Hin].
       + intros vs n [He Hr]. apply postn_ret. split.
         * change (encode reg (TStruct fs) (VStruct vs)) with (enc_struct (encode reg) fs vs). eapply elen_mono; [exact He|lia].
         * rewrite noempty_struct. exact Hr.
     - (* hand-written codecs *)
-      assert (Hrec1 : forall t, desc_ok t = true -> post (Pv reg t) (decode reg f t)) by (intros t; apply decode_wf; exact Hreg).
-      assert (Hrec : forall t, desc_ok t = true -> postn (K reg t) (decode reg f t)) by (intros t; apply IHf).
-      destruct c.
-      + apply (postn_use _ _ _ _ (decode_wf reg Hreg (S f) _ Ht)). cbn [decode dec_custom]. apply postn_variant; assumption.
-      + apply (postn_use _ _ _ _ (decode_wf reg Hreg (S f) _ Ht)). cbn [decode dec_custom]. apply postn_datavalue; assumption.
-      + apply (postn_use _ _ _ _ (decode_wf reg Hreg (S f) _ Ht)). cbn [decode dec_custom]. apply postn_diag; assumption.
-      + leaf_case f Ht. cbn [decode dec_custom]. eapply postn_weaken; [apply postn_loctext|]. intros v n He.
-        destruct v; exact He || exact I.
-      + apply (postn_use _ _ _ _ (decode_wf reg Hreg (S f) _ Ht)). cbn [decode dec_custom].
-        eapply postn_weaken; [apply postn_nodeid|]. intros v n He [Hw0 _]. split; [|intros _; destruct v; exact Hw0].
-        destruct v; exact He || exact I.
-      + apply (postn_use _ _ _ _ (decode_wf reg Hreg (S f) _ Ht)). cbn [decode dec_custom].
-        eapply postn_weaken; [apply postn_expnodeid|]. intros v n He [Hw0 _]. split; [|intros _; destruct v; exact Hw0].
-        destruct v; exact He || exact I.
-      + apply (postn_use _ _ _ _ (decode_wf reg Hreg (S f) _ Ht)). cbn [decode dec_custom]. apply postn_extobj; assumption.
-      + leaf_case f Ht. cbn [decode dec_custom]. eapply postn_weaken; [apply postn_guid|]. intros v n He.
-        destruct v; exact He || exact I.
+      exact (Hcust c).
+  Qed.
+
+  Lemma customs_len : forall rec,
+    (forall t, desc_ok t = true -> post (Pv reg t) (rec t)) ->
+    (forall t, desc_ok t = true -> postn (K reg t) (rec t)) ->
+    forall c, postn (K reg (TCustom c)) (dec_custom reg rec c).
+  Proof.
+    intros rec Hrec1 Hrec c. pose proof (customs_wf reg Hreg rec Hrec1 c) as H1.
+    destruct c; cbn [dec_custom] in *.
+    + apply (postn_use _ _ _ _ H1). apply postn_variant; assumption.
+    + apply (postn_use _ _ _ _ H1). apply postn_datavalue; assumption.
+    + apply (postn_use _ _ _ _ H1). apply postn_diag; assumption.
+    + apply (postn_use _ _ _ _ H1). eapply postn_weaken; [apply postn_loctext|]. intros v n He [Hw0 _].
+      split; [destruct v; exact He || exact I|intros _; destruct v; exact Hw0].
+    + apply (postn_use _ _ _ _ H1). eapply postn_weaken; [apply postn_nodeid|]. intros v n He [Hw0 _].
+      split; [destruct v; exact He || exact I|intros _; destruct v; exact Hw0].
+    + apply (postn_use _ _ _ _ H1). eapply postn_weaken; [apply postn_expnodeid|]. intros v n He [Hw0 _].
+      split; [destruct v; exact He || exact I|intros _; destruct v; exact Hw0].
+    + apply (postn_use _ _ _ _ H1). apply postn_extobj; assumption.
+    + apply (postn_use _ _ _ _ H1). eapply postn_weaken; [apply postn_guid|]. intros v n He [Hw0 _].
+      split; [destruct v; exact He || exact I|intros _; destruct v; exact Hw0].
+  Qed.
+
+  Theorem decode_len : forall fuel t, desc_ok t = true -> postn (K reg t) (decode reg fuel t).
+  Proof.
+    induction fuel as [|f IHf]; intros t Ht.
+    - apply (level_len (fun _ => fail EOther) false); [intros t' Ht'; apply (decode_wf reg Hreg 0 t' Ht')| |exact Ht].
+      intros c. unfold level_custom. destruct c; cbn [nested andb negb];
+        try (apply postn_tick_bind; apply postn_fail);
+        (apply customs_len; [intros t' _; apply post_fail|intros t' _; apply postn_fail]).
+    - apply (level_len (decode reg f) true); [intros t' Ht'; apply (decode_wf reg Hreg (S f) t' Ht')| |exact Ht].
+      intros c. unfold level_custom. rewrite andb_false_r. apply customs_len; [intros t'; apply decode_wf; exact Hreg|exact IHf].
   Qed.
 End LenMain.
